@@ -56,7 +56,7 @@ def one(item):
         confirmed = rc_clean == 0 and rc_mut == 1 and "82 passed" in t
         out["confirmed"] = confirmed
         detected = {}
-        for chk in [prop] + EXTRA.get(sid, []):
+        for chk in [prop] + EXTRA.get(sid, []) + [c for c in os.environ.get("SEED_EXTRA_CHECKS", "").split(",") if c and c != prop]:
             outdir = "/tmp/seedout_%s_%s" % (sid, chk)
             env2 = dict(os.environ, PYTHONPATH=wt, VERIF_OUT=outdir)
             rc, o = sh("cd %s && ./check %s --tier quick" % (V, chk), env=env2, timeout=3600)
@@ -78,12 +78,12 @@ def main():
     if "--jobs" in sys.argv:
         jobs = int(sys.argv[sys.argv.index("--jobs") + 1])
     only = [a for a in sys.argv[1:] if re.match(r"C\d\d", a)]
-    rnd = 2 if "--round2" in sys.argv else 1
+    rnd = 3 if "--round3" in sys.argv else 2 if "--round2" in sys.argv else 1
     items = []
     for i in range(1, 21):
         for k in (1, 2, 3):
-            sid = ("C%02d_m%d" if rnd == 1 else "C%02d_r2m%d") % (i, k)
-            src = ("/tmp/mut_C%02d/mutants/m%d" if rnd == 1 else "/tmp/mut2_C%02d/mutants/m%d") % (i, k)
+            sid = {1: "C%02d_m%d", 2: "C%02d_r2m%d", 3: "C%02d_r3m%d"}[rnd] % (i, k)
+            src = {1: "/tmp/mut_C%02d/mutants/m%d", 2: "/tmp/mut2_C%02d/mutants/m%d", 3: "/tmp/mut3_C%02d/mutants/m%d"}[rnd] % (i, k)
             kept = os.path.join(V, "seeded", sid)
             if os.path.exists(os.path.join(kept, "patch.diff")):
                 src = kept
